@@ -286,6 +286,11 @@ func c16Run(actors []c16Actor, prefix, expectN []int) (*sched.Result, *c16Env, [
 			if !eng.VerifTokenFree() || eng.VerifTxn() != nil {
 				end = append(end, fmt.Sprintf("slot-not-free: after all actors finished the writer slot is free=%v, current transaction set=%v", eng.VerifTokenFree(), eng.VerifTxn() != nil))
 			} else {
+				// calls that are rejected inside their write transaction give the slot back as well: an index build on the
+				// read-only local database, a second insert of the same _id
+				if _, err := w.Client.Database("local").Collection("x").Indexes().CreateOne(w.Ctx, mongo.IndexModel{Keys: bD("k", int32(1))}); err == nil {
+					end = append(end, "index build on local.x was accepted")
+				}
 				// a subsequent write proceeds immediately (it would park forever otherwise, reported as deadlock)
 				if _, err := w.C("d", "c").InsertOne(w.Ctx, bD("_id", "probe")); err != nil {
 					end = append(end, "probe-write-fails: "+err.Error())
